@@ -82,7 +82,9 @@ type constraint struct {
 
 func mpOf(req M) M { return req["methodParameters"].(M) }
 
-func oneBias(name string, props M) []interface{} { return []interface{}{M{"name": name, "props": props}} }
+func oneBias(name string, props M) []interface{} {
+	return []interface{}{M{"name": name, "props": props}}
+}
 
 func validAnchoring() M {
 	return M{"anchoringAlternatives": []interface{}{M{"alternative": "a2", "coefficient": 1.5}}, "referencePoints": M{"function": "ideal"},
@@ -105,7 +107,9 @@ var constraints = []constraint{
 	{name: "unknownBias", expect: 400, names: allBiasNames, apply: func(q M) { q["biases"] = oneBias("noSuchBias", M{}) }},
 	{name: "unknownOrdering", expect: 400, apply: func(q M) { q["biases"] = oneBias("criteriaOmission", M{"ratio": 0.34, "ordering": "noSuchOrdering"}) }},
 	{name: "unknownOrderingReversal", expect: 400, apply: func(q M) { q["biases"] = oneBias("preferenceReversal", M{"ratio": 0.34, "ordering": "noSuchOrdering"}) }},
-	{name: "unknownFatigueFunction", expect: 400, apply: func(q M) { q["biases"] = oneBias("fatigue", M{"function": "noSuchFunction", "params": M{"value": 0.1}}) }},
+	{name: "unknownFatigueFunction", expect: 400, apply: func(q M) {
+		q["biases"] = oneBias("fatigue", M{"function": "noSuchFunction", "params": M{"value": 0.1}})
+	}},
 	{name: "unknownAnchoringGain", expect: 400, apply: func(q M) {
 		p := validAnchoring()
 		p["gain"] = M{"function": "noSuchFunction", "params": M{}}
@@ -198,7 +202,9 @@ var constraints = []constraint{
 	{name: "distillationZeroAtOne", methods: []string{"electreIII"}, expect: 200, apply: func(q M) { mpOf(q)["electreDistillation"] = M{"a": -0.3, "b": 0.3} }},
 	{name: "distillationZero", methods: []string{"electreIII"}, expect: 0, apply: func(q M) { mpOf(q)["electreDistillation"] = M{"a": 0.0, "b": 0.0} }},
 	{name: "distillationHuge", methods: []string{"electreIII"}, expect: 0, apply: func(q M) { mpOf(q)["electreDistillation"] = M{"a": 5.0, "b": 7.0} }},
-	{name: "zeroBoundingScaling", expect: 0, apply: func(q M) { q["biases"] = oneBias("fatigue", M{"function": "const", "params": M{"value": 0.1}, "allowedValuesRangeScaling": 0.0}) }},
+	{name: "zeroBoundingScaling", expect: 0, apply: func(q M) {
+		q["biases"] = oneBias("fatigue", M{"function": "const", "params": M{"value": 0.1}, "allowedValuesRangeScaling": 0.0})
+	}},
 	{name: "zeroConcealmentScaling", expect: 0, apply: func(q M) { q["biases"] = oneBias("criteriaConcealment", M{"newCriterionScaling": 0.0}) }},
 	{name: "noAnchoringAlternatives", expect: 0, apply: func(q M) {
 		p := validAnchoring()
@@ -357,7 +363,9 @@ func extremeCases(r *rand.Rand, tier string) []hostile {
 
 func malformedCases(r *rand.Rand) []hostile {
 	var out []hostile
-	add := func(name string, b []byte) { out = append(out, hostile{kind: "malformed:" + name, body: b, expect: 400}) }
+	add := func(name string, b []byte) {
+		out = append(out, hostile{kind: "malformed:" + name, body: b, expect: 400})
+	}
 	valid := validBase(methods[r.Intn(len(methods))], r).body()
 	// truncations at every byte-class boundary
 	cls := func(b byte) int {
